@@ -880,7 +880,85 @@ def c01_21(ctx):
 
 
 
+def _nonce_cells(ctx):
+    if not hasattr(ctx, "_c01_nonce"):
+        ctx._c01_nonce = _nonce_cells_(ctx)
+    return ctx._c01_nonce
+
+
+def _nonce_cells_(ctx):
+    """PrivateKey.deterministic_k evaluated with the group order as a FREE TERM: the name N is bound to a stand-in order q (2^250, 2^200, 3 and
+    the real n), so that the retry branch of the RFC 6979 generator -- unreachable by choice of input for the real n (probability 2^-128) -- is
+    taken dozens of times.  For each q and (secret, digest) below q the result must be the first output v of HMAC-DRBG(secret ‖ digest) with
+    1 <= v < q, the generator re-keyed with K = HMAC(K, V ‖ 00), V = HMAC(K, V) after each refused candidate.  In particular the result lies in
+    [1, q-1] for every q.  HMAC-SHA256 is the standard library's"""
+    import hashlib
+    import hmac
+    from sa.cells import Evaluator, Obj, Raised, Undecided
+    spec = "pecc:PrivateKey.deterministic_k"
+    mod, fn = rl.get(ctx, spec)
+
+    def ref(d, z, q):
+        k, v = b"\x00" * 32, b"\x01" * 32
+        seed = d.to_bytes(32, "big") + z.to_bytes(32, "big")
+        k = hmac.new(k, v + b"\x00" + seed, hashlib.sha256).digest()
+        v = hmac.new(k, v, hashlib.sha256).digest()
+        k = hmac.new(k, v + b"\x01" + seed, hashlib.sha256).digest()
+        v = hmac.new(k, v, hashlib.sha256).digest()
+        tries = 0
+        while True:
+            v = hmac.new(k, v, hashlib.sha256).digest()
+            tries += 1
+            c = int.from_bytes(v, "big")
+            if 1 <= c < q:
+                return c, tries
+            k = hmac.new(k, v + b"\x00", hashlib.sha256).digest()
+            v = hmac.new(k, v, hashlib.sha256).digest()
+    n = retried = 0
+    try:
+        for q in (N, 2 ** 250, 2 ** 253, 2 ** 255):
+            for d, z in ((1, 0), (2, 1), (3, 2 ** 200 + 5), (2 ** 128 + 1, 12345), (77, 2 ** 249)):
+                if d >= q or z >= q:
+                    continue
+                n += 1
+                want, tries = ref(d, z, q)
+                retried += tries - 1
+                key = Obj("pecc", "PrivateKey", {"secret": d, "network": "mainnet", "compressed": True})
+                try:
+                    got = Evaluator(ctx.repo, externals={"N": q}, max_steps=3000000).call(spec, [z], self_obj=key)
+                except Raised as x:
+                    return [ctx.bad(spec, "secret %d, digest %#x, group order %#x: the nonce generator raises %s" % (d, z, q, x.name), fn, mod, key="nonce-cells")]
+                if got != want:
+                    why = "is outside [1, q-1]" if not (isinstance(got, int) and 1 <= got < q) else "is not the first HMAC-DRBG output below the order (%d candidate(s) are refused first)" % (tries - 1)
+                    return [ctx.bad(spec, "secret %d, digest %#x, group order q = %#x: the nonce returned %s" % (d, z, q, why), fn, mod, key="nonce-cells")]
+    except Undecided as u:
+        return [ctx.err(spec, "nonce generator not evaluable: %s" % u, fn, mod)]
+    ctx.count("cells", n)
+    if retried < 10:
+        raise AnalysisError("nonce cells: the retry branch was taken only %d times" % retried)
+    return [ctx.ok(spec, "%d (order, secret, digest) cells, %d refused candidates: the nonce is the first HMAC-DRBG output in [1, q-1] for the real and for stand-in group orders" % (n, retried),
+                   fn, mod, key="nonce-cells")]
+
+
+def _c01_5_deferring(ctx):
+    """the returned nonce candidate ⊆ [1, N-1] (interval rule over both back ends); for pecc in another form the nonce cells (C01.22) decide"""
+    try:
+        out = c01_5(ctx)
+    except AnalysisError as e:
+        mod, fn = rl.get(ctx, "pecc:PrivateKey.deterministic_k")
+        return rl.defer(ctx, [ctx.err("pecc:PrivateKey.deterministic_k", str(e), fn, mod)], lambda: _nonce_cells(ctx) if "cecc" not in str(e) else [None], "decided by the nonce cells (C01.22)")
+    rl.defer(ctx, [r for r in out if r.anchor.startswith("pecc:")], lambda: _nonce_cells(ctx), "decided by the nonce cells (C01.22: for the real and for stand-in group orders q the nonce is the "
+             "first generator output in [1, q-1]); the returned expression is not in the form the interval rule reads")
+    return out
+
+
+def c01_22(ctx):
+    """CELLS nonce retry: the RFC 6979 generator with the group order as a free term"""
+    return _nonce_cells(ctx)
+
+
 OBLIGATIONS = [
+    ("C01.22", "CELLS nonce retry (free order)", c01_22),
     ("C01.20", "CELLS sign / verify", c01_20),
     ("C01.21", "CELLS group law (shared C03)", c01_21),
     ("C01.19", "SHARED", c01_19),
@@ -889,7 +967,7 @@ OBLIGATIONS = [
     ("C01.2", "GUARD relation", c01_2),
     ("C01.3", "RANGE output", c01_3),
     ("C01.4", "RANGE output", c01_4),
-    ("C01.5", "RANGE output", c01_5),
+    ("C01.5", "RANGE output", _c01_5_deferring),
     ("C01.6", "RANGE accept-set", c01_6),
     ("C01.7", "LAYOUT der", c01_7),
     ("C01.8", "TABLE", c01_8),
